@@ -47,6 +47,19 @@ def NoTrail (s : Name) : Prop := s.getLast? ≠ some '_'
 
 theorem unnamed_noTrail : NoTrail unnamed := by unfold NoTrail unnamed; decide
 
+theorem noTrail_prefix (p r : Name) (hr : r ≠ []) (h : NoTrail r) : NoTrail (p ++ r) := by
+  unfold NoTrail at *
+  rw [List.getLast?_append]
+  cases hl : r.getLast? with
+  | none => exact absurd (List.getLast?_eq_none_iff.mp hl) hr
+  | some c => simpa [hl] using h
+
+theorem hlslGen_noTrail (r : Name) (hr : r ≠ []) (h : NoTrail r) : NoTrail (hlslGen r) := by
+  unfold hlslGen
+  split
+  · exact noTrail_prefix _ _ hr h
+  · exact h
+
 theorem hlslSanitize_noTrail (l : Name) : NoTrail (hlslSanitize l) := by
   unfold hlslSanitize
   split
@@ -54,18 +67,13 @@ theorem hlslSanitize_noTrail (l : Name) : NoTrail (hlslSanitize l) := by
   · simp only []
     split
     · exact unnamed_noTrail
-    · split
-      · exact getLast?_trim _
+    · rename_i hne
+      split
+      · exact hlslGen_noTrail _ (by intro h; simp [h] at hne) (getLast?_trim _)
       · split
         · exact unnamed_noTrail
-        · exact getLast?_trim _
-
-theorem noTrail_prefix (p r : Name) (hr : r ≠ []) (h : NoTrail r) : NoTrail (p ++ r) := by
-  unfold NoTrail at *
-  rw [List.getLast?_append]
-  cases hl : r.getLast? with
-  | none => exact absurd (List.getLast?_eq_none_iff.mp hl) hr
-  | some c => simpa [hl] using h
+        · rename_i hne2
+          exact hlslGen_noTrail _ (by intro h; simp [h] at hne2) (getLast?_trim _)
 
 theorem glslSanitize_noTrail (l : Name) : NoTrail (glslSanitize l) := by
   unfold glslSanitize
